@@ -10,6 +10,7 @@ import (
 	"time"
 
 	"github.com/siglens/siglens/pkg/config"
+	"github.com/siglens/siglens/pkg/lookups"
 	"github.com/siglens/siglens/pkg/segment/structs"
 	sutils "github.com/siglens/siglens/pkg/segment/utils"
 	"github.com/siglens/siglens/pkg/utils"
@@ -113,6 +114,10 @@ func PerformInputLookup(aggs *structs.QueryAggregators) error {
 
 	if !checkCSVFormat(filename) {
 		return fmt.Errorf("PerformInputLookup: Only .csv and .csv.gz formats are currently supported")
+	}
+
+	if !lookups.IsSafeLookupName(filename) {
+		return fmt.Errorf("PerformInputLookup: Invalid lookup file name %q", filename)
 	}
 
 	filePath := filepath.Join(config.GetLookupPath(), filename)
